@@ -2,6 +2,7 @@ package main
 
 import (
 	"fmt"
+	"go/token"
 	"os"
 
 	"golang.org/x/tools/go/ssa"
@@ -67,6 +68,12 @@ func checkErrorsExamined(c *Ctx, r *Report, rule, doc string, min int, fns []*ss
 				why = "success is reported although the error of " + shortName(calleeName(&call.Call)) + " was never examined"
 				pos = call.Pos()
 			}
+			// … and an error that was examined and found non-nil is not passed over either
+			for _, call := range p.failedErrors(func(f *ssa.Function) bool { return c.InModule(f) }, modPath) {
+				ok = false
+				why = "success is reported on a path on which " + shortName(calleeName(&call.Call)) + " returned an error"
+				pos = call.Pos()
+			}
 		})
 		if !complete {
 			r.Unk(name+"|errors examined", fn.Pos(), "too many paths")
@@ -96,4 +103,71 @@ func (c *Ctx) ctxFuncs() []*ssa.Function {
 		out = append(out, fn)
 	}
 	return out
+}
+
+// nilDecisionOnPath: what the last comparison of v with nil on the path found — 1 non-nil,
+// 0 nil, -1 never compared.
+func nilDecisionOnPath(p CPath, v ssa.Value) int {
+	out := -1
+	for _, tk := range p.Ifs() {
+		op, x, y, neg, isBin := condOf(tk.If.Cond)
+		if !isBin || (op != token.NEQ && op != token.EQL) {
+			continue
+		}
+		arm := tk.Arm
+		if neg {
+			arm = !arm
+		}
+		var e ssa.Value
+		if isNilConst(y) {
+			e = x
+		} else if isNilConst(x) {
+			e = y
+		}
+		if e == nil || !(e == v || p.Resolve(e) == v) {
+			continue
+		}
+		if (op == token.NEQ) == arm {
+			out = 1
+		} else {
+			out = 0
+		}
+	}
+	return out
+}
+
+// checkRetryFailureReturned: when backoff.Retry gives up (its result was found non-nil), the
+// function that started the retries reports failure — it does not turn an exchange that never
+// completed into a success, whatever else happened during the attempts.
+func checkRetryFailureReturned(c *Ctx, r *Report) {
+	r.Rule("retry-failure-returned", "on every path on which backoff.Retry's result was found non-nil, the function that called it returns a non-nil error", 3)
+	for _, rs := range c.RetrySites() {
+		fn := rs.Call.Parent()
+		if fn == nil || errResultIndex(fn) < 0 {
+			continue
+		}
+		name := c.FnName(fn)
+		r.Fn(name)
+		ok, n := true, 0
+		pos := rs.Call.Pos()
+		complete := enumPaths(fn, 1, 200000, func(p CPath) {
+			ret, isRet := p.Last().(*ssa.Return)
+			if !isRet || ret.Parent() != fn {
+				return
+			}
+			if nilDecisionOnPath(p, rs.Call) != 1 {
+				return
+			}
+			n++
+			if c.errOutcome(fn, p) != 1 {
+				ok = false
+				pos = ret.Pos()
+			}
+		})
+		if !complete {
+			r.Unk(name+"|retry failure", rs.Call.Pos(), "too many paths")
+			continue
+		}
+		r.Check(ok, name+"|retry failure", pos, fmt.Sprintf("%d paths on which the retries were given up all return an error", n), "the retries were given up (backoff.Retry returned an error) and the function reports success all the same: the caller takes whatever the decoded layers last held for the response")
+	}
 }
